@@ -197,9 +197,8 @@ namespace ratio
             std::vector<arith_expr> exprs;
             for (const auto &e : expressions)
                 exprs.emplace_back(dynamic_cast<const ast::expression *>(e)->evaluate(scp, ctx));
-            const auto &lra = scp.get_core().get_lra_theory();
-            if (std::count_if(exprs.cbegin(), exprs.cend(), [&lra](const auto &ae)
-                              { return lra.lb(ae->l) != lra.ub(ae->l); }) > 1)
+            if (std::count_if(exprs.cbegin(), exprs.cend(), [&scp](const auto &ae)
+                              { const auto bnds = scp.get_core().arith_bounds(ae); return bnds.first != bnds.second; }) > 1)
                 throw std::invalid_argument("non-linear expression: at most one factor of a product can be a variable..");
             return scp.get_core().mult(exprs);
         }
@@ -210,11 +209,10 @@ namespace ratio
             std::vector<arith_expr> exprs;
             for (const auto &e : expressions)
                 exprs.emplace_back(dynamic_cast<const ast::expression *>(e)->evaluate(scp, ctx));
-            const auto &lra = scp.get_core().get_lra_theory();
             for (auto it = ++exprs.cbegin(); it != exprs.cend(); ++it)
-                if (lra.lb((*it)->l) != lra.ub((*it)->l))
+                if (const auto bnds = scp.get_core().arith_bounds(*it); bnds.first != bnds.second)
                     throw std::invalid_argument("non-linear expression: a divisor must be a constant..");
-                else if (lra.value((*it)->l).get_rational() == smt::rational::ZERO)
+                else if (scp.get_core().arith_value(*it).get_rational() == smt::rational::ZERO)
                     throw std::invalid_argument("division by zero..");
             return scp.get_core().div(exprs);
         }
